@@ -43,6 +43,9 @@ PLAN = {
     "C14-G": ["C14"], "C14-H": ["C14"], "C13-G": ["C13", "C10"], "C13-H": ["C13", "C10"], "C10-G": ["C10"], "C10-H": ["C10", "C13"],
     "C04-G": ["C04", "C02"], "C04-H": ["C06"], "C17-G": ["C17"], "C17-H": ["C17"], "C02-G": ["C02", "C04"], "C02-H": ["C02"],
     "C16-G": ["C16", "C04"], "C16-H": ["C16"], "C05-G": ["C05", "C06"], "C05-H": ["C05", "C06"],
+    # eighth batch (properties with fast checks)
+    "C11-I": ["C11"], "C11-J": ["C11"], "C16-I": ["C16"], "C16-J": ["C16"], "C18-I": ["C18"], "C18-J": ["C18"],
+    "C08-I": ["C08"], "C08-J": ["C08"], "C12-I": ["C12"], "C12-J": ["C12"], "C03-I": ["C03"], "C03-J": ["C03"],
 }
 
 
